@@ -62,7 +62,25 @@ def build(case):
             h.add_node(ops.Output(isig.output), n)
     hist = case.get("hist") or []
     # every other history is interrupted by serializations (pure queries) after every second step
-    probe = (lambda: h.to_json()) if len(json.dumps(hist, default=repr)) % 2 else None
+    turn = [0]
+
+    def queries():
+        # pure queries of several kinds, in turn: serialization, rendering, port kinds / types of every node
+        turn[0] += 1
+        if turn[0] % 3 == 1:
+            h.to_json()
+        elif turn[0] % 3 == 2:
+            h.render_dot().source
+        else:
+            for n_ in list(h):
+                for p_ in (n_.out(0), n_.inp(0), n_.out(-1)):
+                    try:
+                        h.port_kind(p_)
+                        h.port_type(p_)
+                    except Exception:  # noqa: BLE001  (a port the operation does not have)
+                        pass
+
+    probe = queries if len(json.dumps(hist, default=repr)) % 2 else None
     info["applied"] = apply_history(h, hist, valid_ports_only=True, probe=probe)
     nodes = list(h)
     for (k, key, v) in case.get("md", []):
